@@ -27,6 +27,7 @@ func (wp wrapProp) run(t *testing.T, kinds []string) {
 			rapid.Check(t, func(t *rapid.T) {
 				c := genWrapCase(t, kind, wp.maxBuf, wp.faults, wp.eqShrink, wp.nilCalls)
 				beginCase(wp.prop, "wrap-"+kind, func() any { return c })
+				defer endCase() // also when rapid abandons the case half-way (fuzzing: input used up)
 				msg, bad, x, err := checkWrap(wp.prop, c, wp.differential)
 				endCase()
 				if err != nil {
